@@ -324,7 +324,10 @@ func (s *Server) Session(strm signaling.SRPCSignaling_SessionStream) error {
 		currUserped := currLocalPeer != ourPeerTkr
 		var currOpen *uint64
 		if currRemotePeer != nil {
-			currOpen = &sess.seqno
+			// snapshot the epoch value: comparing pointers to sess.seqno would
+			// never notice an epoch change while the remote stays attached.
+			currSeqno := sess.seqno
+			currOpen = &currSeqno
 		}
 		waitCh = sess.getWaitCh()
 
@@ -352,7 +355,8 @@ func (s *Server) Session(strm signaling.SRPCSignaling_SessionStream) error {
 		}
 
 		// Send the opened or closed message if opened or closed.
-		if prevSentOpenToLocal != currOpen {
+		if (prevSentOpenToLocal == nil) != (currOpen == nil) ||
+			(currOpen != nil && *prevSentOpenToLocal != *currOpen) {
 			var err error
 			if currOpen != nil {
 				err = strm.Send(&signaling.SessionResponse{
